@@ -1789,7 +1789,13 @@ class Executor:
     if g.ifs:
       self.frame.env = saved
       return self.world.filter_comprehension(self, node, g, it, elt)
-    ew = self.ev(elt)
+    try:
+      ew = self.ev(elt)
+    except PyRaise:
+      # the comprehension raises iff the element expression raises for SOME index in range
+      # (on the normal path nothing is assumed about j: the list may be empty)
+      self.path.assume(z3.And(0 <= j, j < it.len))
+      raise
     self.frame.env = saved
     ek = kind_of(ew)
     # the result array is a named constant characterised pointwise (a lambda
